@@ -74,7 +74,11 @@ func (m *Mirror) Apply(l *Line) error {
 				return fmt.Errorf("FETCH %d reports UID 0", n)
 			}
 			if e.UID != 0 && e.UID != fd.UID {
-				return fmt.Errorf("sequence number %d changed UID from %d to %d without EXPUNGE", n, e.UID, fd.UID)
+				why := ""
+				if fd.UID < e.UID {
+					why = " (a message with a lower UID was inserted before announced messages)"
+				}
+				return fmt.Errorf("sequence number %d changed UID from %d to %d without EXPUNGE%s", n, e.UID, fd.UID, why)
 			}
 			e.UID = fd.UID
 			if err := m.checkAscending(int(n) - 1); err != nil {
@@ -117,6 +121,14 @@ func (m *Mirror) SetFlagsSilently(seq int, f func(old []string) []string) {
 	e := &m.Msgs[seq-1]
 	if e.FlagsKnown {
 		e.Flags = f(e.Flags)
+	}
+}
+
+// ForgetFlags marks the flags of a message as not known to the client.
+func (m *Mirror) ForgetFlags(seq int) {
+	if seq >= 1 && seq <= len(m.Msgs) {
+		m.Msgs[seq-1].FlagsKnown = false
+		m.Msgs[seq-1].Flags = nil
 	}
 }
 
